@@ -76,6 +76,9 @@ def gen_reg(rng):
             ident = 0 if rng.random() < 0.04 else rng.randrange(1, 8)
             if kind != "tunnel" and auth > 0 and rng.random() < 0.3:
                 ops.append([0, ident, stamps[k], rng.randrange(1, 4)])
+            elif kind == "tunnel" and rng.random() < 0.5:
+                # a registration carrying a TunnelID from a small space: often one that is already registered under another ConnID
+                ops.append([0, ident, stamps[k], rng.randrange(1, 4)])
             else:
                 ops.append([0, ident, stamps[k]])
         else:
@@ -87,14 +90,18 @@ def gen_mapseq(rng):
     mx = rng.choice([0, 1, 1, 2, 3])
     ops, opened = [], 0
     early = rng.choice([0.0, 0.25, 0.25])
+    kind = rng.choice(["mapping", "user", "user"])
+    qfail = rng.choice([0.0, 0.25, 0.4]) if kind == "user" else 0.0
     for _ in range(rng.choice([4, 8, 14])):
         if opened == 0 or rng.random() < 0.6:
             # [2]: the tunnel of this connection is closed by its peer between RegisterTunnel and tun.Start()
-            ops.append([2] if rng.random() < early else [0])
+            # [3]: (limit source = user quota) GetUserQuota() fails for this arrival only
+            r = rng.random()
+            ops.append([3] if r < qfail else ([2] if r < qfail + early else [0]))
             opened += 1
         else:
             ops.append([1, rng.randrange(opened)])
-    return {"mode": "mapseq", "kind": rng.choice(["mapping", "user"]), "max": mx, "ops": ops}
+    return {"mode": "mapseq", "kind": kind, "max": mx, "ops": ops}
 
 
 def gen_quota(rng):
@@ -136,7 +143,11 @@ def gen_maprace(rng, trials):
 
 def gen_regrace(rng, trials):
     mx = rng.choice([1, 2, 3, 8])
-    return {"mode": "regrace", "kind": rng.choice(["tunnel", "control"]), "max": mx, "pre": rng.choice([mx - 1, 0]),
+    kind = rng.choice(["tunnel", "control", "tunnel-tid"])
+    if kind == "tunnel-tid":
+        # FULL tunnel registry; every concurrent registration is a NEW ConnID carrying the TunnelID of a registered tunnel
+        return {"mode": "regrace", "kind": kind, "max": mx, "pre": mx, "n": rng.choice([4, 8, 16]), "trials": trials}
+    return {"mode": "regrace", "kind": kind, "max": mx, "pre": rng.choice([mx - 1, 0]),
             "n": rng.choice([4, 16, 32]), "trials": trials}
 
 
@@ -188,7 +199,7 @@ def nontrivial(c, o):
     if m == "reg":
         return c["max"] > 0 and o["max_seen"] >= c["max"] and len(c["ops"]) > c["max"]
     if m == "mapseq":
-        return c["max"] > 0 and (2 in o["outcomes"] or o["max_seen"] > c["max"] or any(op[0] == 2 for op in c["ops"]))
+        return c["max"] > 0 and (2 in o["outcomes"] or o["max_seen"] > c["max"] or any(op[0] in (2, 3) for op in c["ops"]))
     if m == "regsched":
         return c["n"] >= 2
     if m == "quota":
@@ -236,6 +247,10 @@ def run(ctx, only_cases=None):
         cases += qfault_cases(thorough)
         cases += [gen_maprace(rng, 1500 if thorough else 250) for _ in range(16 if thorough else 8)]
         cases += [gen_regrace(rng, 200 if thorough else 30) for _ in range(12 if thorough else 6)]
+        cases += [{"mode": "regrace", "kind": "tunnel-tid", "max": m, "pre": m, "n": 8, "trials": 200 if thorough else 30} for m in (1, 2, 3)]
+    for c in cases:
+        if c["mode"] == "mapseq":
+            c["pre"] = 1 if variants["mapping"] == 0 else 0     # tells the harness whether the counter covers live tunnels at all
     outs = vlib.run_harness(binary, cases, timeout=1500)
 
     nfail, fail_keys = 0, {}
@@ -329,6 +344,8 @@ def run(ctx, only_cases=None):
                                        activation_count_on_read_fault="lenient listing (fails open)" if variants["mapping_fault"] == 2 else "aborts (fail closed)"),
         "read_fault_positions_tried": sum(len(o["outcomes"]) for c, o in zip(cases, outs) if c["mode"] == "qfault"),
         "input_distribution": dict(dist, contention_trials=trials,
+                                   mapseq_with_quota_fault=sum(1 for c in cases if c["mode"] == "mapseq" and any(op[0] == 3 for op in c["ops"])),
+                                   tunnel_reg_with_known_tunnel_id=sum(1 for c in cases if c["mode"] == "reg" and c["kind"] == "tunnel" and any(op[0] == 0 and len(op) > 3 for op in c["ops"])),
                                    reg_with_shared_client_identity=sum(1 for c in cases if c["mode"] == "reg" and any(op[0] == 2 or len(op) > 3 for op in c["ops"])),
                                    limits=sorted(set(c["max"] for c in cases)),
                                    server_all_check_first=sum(1 for c in cases if c["mode"] == "server" and sorted(c["sched"][:len(c["closes"])]) == list(range(len(c["closes"])))),
@@ -338,6 +355,8 @@ def run(ctx, only_cases=None):
     ctx.assumptions += [
         "one mutex-protected section / one atomic Load, Add, CAS / one storage-level count or create is one atomic step",
         "connection ids handed to CreateConnection are pairwise distinct (C15), so an insert adds an entry and CreateStream does not fail",
+        "client mapping cap with the user quota as limit source: an arrival during a failing GetUserQuota() is let through and counted (as coded, "
+        "'do not block the connection'); the cap binds the admissions decided against a known limit, the counter equals the holders at every point",
         "control cap: Register is ONE atomic step in the model; that atomicity is checked on the real code by parking the evicted connection's "
         "Stream.Close() (a blocked caller is recognised by a 40 ms quiet period — on the clean code a late caller only makes the sample less "
         "informative, never wrong); the evict;insert split is refuted in the model",
